@@ -29,7 +29,7 @@ RULE = ("pair cases: endpoint pairs generic / nearly equal (1e-9..1e-1) / nearly
         "0.9995 LERP threshold / dot swept log-uniformly over 1-10^[-9,-0.3] / identical, with sorted weight vectors containing 0 and 1; "
         "nan cases: smooth trajectories of N<=10 rows with every interior NaN run (start, length) enumerated across shards, plus "
         "sampled multi-run patterns up to N=60; flips cases: every sign pattern of N<=8 rows (enumerated) and sampled patterns up to "
-        "N=60; non-trivial = endpoints differ / at least one NaN row / at least one flipped row")
+        "N=60, recordings resting in or leaving special attitudes (identity, exact half / quarter / third turns, components all +-1/2); every third pair case adds weights 1e-12..1e-3 from either end; non-trivial = endpoints differ / at least one NaN row / at least one flipped row")
 ASSUMPTIONS = ["great-arc reference computed with sin-weights in the harness", "above dot 0.9995 the documented LERP branch may deviate "
                "from constant speed by Omega^3/20 (<= 1.6e-6 rad)", "NaN in the first/last row is outside 'interior runs': recorded only"]
 DEFAULT_THRESHOLD = 0.9995
